@@ -292,7 +292,12 @@ fn parse_inner(
                                     let data_id = parse_number(pairs.next().unwrap())?;
                                     let data_ref = user_prm_data_definitions
                                         .get(&data_id)
-                                        .expect("TODO")
+                                        .ok_or_else(|| {
+                                            parse_error(
+                                                format!("ExtUserPrmData {} was not found", data_id),
+                                                statement_span,
+                                            )
+                                        })?
                                         .clone();
                                     module_prm_data.data_ref.push((offset, data_ref));
                                 }
@@ -516,7 +521,12 @@ fn parse_inner(
                         let data_id = parse_number(pairs.next().unwrap())?;
                         let data_ref = user_prm_data_definitions
                             .get(&data_id)
-                            .expect("TODO")
+                            .ok_or_else(|| {
+                                parse_error(
+                                    format!("ExtUserPrmData {} was not found", data_id),
+                                    statement_span,
+                                )
+                            })?
                             .clone();
                         gsd.user_prm_data.data_ref.push((offset, data_ref));
                         // The presence of this keywords means `User_Prm_Data` and
